@@ -9,9 +9,12 @@ COQ_TARGETS = ['Props/Properties_C17.vo']
 PROPS_FILES = ['Props/Properties_C17.v']
 THEOREMS = ['C17_no_cleartext_at_switch', 'C17_pending_cleartext_never_switches', 'C17_after_switch_only_tls_input',
             'C17_reset_after_switch', 'C17_mail_needs_new_greeting', 'C17_handoff_after_switch', 'C17_ready_only_if', 'C17_refused',
-            'C17_not_offered', 'C17_failed_handshake', 'C17_tls_only_by_switch', 'C17_shape', 'C17_starttls_row']
+            'C17_not_offered', 'C17_failed_handshake', 'C17_tls_only_by_switch', 'C17_shape', 'C17_starttls_row',
+            'C17_servercert_call', 'C17_servercert_calls', 'C17_servercert_orig_refuted']
 ENGINES = [dict(name='tlssession', runner='tlssession/runner.py', extract='Extract/Extract_tlssession.v', driver='tls_driver.ml',
-                glue=('glue.ml', 'glue_z.ml'), accepts=lambda c: c.startswith('7e '))]
+                glue=('glue.ml', 'glue_z.ml'), accepts=lambda c: c.startswith('7e ')),
+           dict(name='servercert', c_sources=['servercert_h.c'], extract='Extract/Extract_servercert.v', driver='servercert_driver.ml',
+                glue=('glue.ml',), accepts=lambda c: c.startswith('ce '))]
 SHRINK_FROM = 2      # never shrink the configuration field
 
 RULE = ('case = scratch configuration (certificate good / absent / unusable, relay list, v4/v6 client, databytes, qmail-queue plan) + a client '
@@ -231,12 +234,38 @@ def gen_one(rng):
     return case(cfg, items)
 
 
+IPS = [b'192.0.2.2', b'1.2.3.4', b'255.255.255.255', b'::1', b'2001:db8::2', b'2001:0db8:1111:2222:3333:4444:5555:6666',
+       b'2001:db8:1111:2222:3333:4444:5555:6666', b'0000:0000:0000:0000:0000:ffff:192.168.100.100', b'x']
+
+
+def gen_servercert(rng):
+    r = rng.random()
+    if r < 0.5:
+        ip = rng.choice(IPS)
+    else:                             # any length up to INET6_ADDRSTRLEN - 1, any octets but NUL
+        n = rng.choice([1, 2, 15, 37, 38, 39, 40, 43, 44, 45, 45, rng.randrange(1, 46)])
+        ip = bytes(rng.choice([rng.randrange(1, 256), 0x3a, 0x2e, 0x30 + rng.randrange(10)]) for _ in range(n))
+    port = rng.choice([b'', b'25', b'587', b'465', b'65535', b'1', b'2525'])
+    k = rng.choice([1, 1, 2, 2, 3, 4, 6])
+    masks = []
+    for _ in range(k):
+        m = rng.choice([0, 1, 3, 4, 12, 16, 48, 63, rng.randrange(64), rng.randrange(64)])
+        if rng.random() < 0.3 and masks:
+            m = masks[-1]
+        masks.append(m)
+    return 'ce ' + R.hx(ip) + ' ' + R.hx(port) + ' ' + ' '.join('%02x' % m for m in masks)
+
+
 def gen_cases(engine, rng, tier):
+    if engine == 'servercert':
+        return [gen_servercert(rng) for _ in range(2000 if tier == 'quick' else 60000)]
     n = 450 if tier == 'quick' else 9000
     return [gen_one(rng) for _ in range(n)]
 
 
 def nontrivial(case, c_out):
+    if case.startswith('ce '):
+        return len(case.split()) > 4 and ' r0:' in ' ' + c_out
     return c_out.split().count('c220') >= 2
 
 
@@ -244,7 +273,13 @@ def distribution(results):
     d = dict(switched=0, handshake_refused_by_client_view=0, cleartext_suffix_same_segment=0, suffix_cases_that_switched=0, garbage_454=0,
              unmodelled=0, tls_replies=0, starttls_refused_in_tls=0, offers=0, handoffs_in_tls=0, handoffs_clear=0, closed=0,
              judged_by_trace_checker=0)
+    d['servercert_calls'] = 0
+    d['servercert_found'] = 0
     for r in results:
+        if r['case'].startswith('ce '):
+            d['servercert_calls'] += len(r['c'].split())
+            d['servercert_found'] += sum(1 for x in r['c'].split() if x.startswith('r0:'))
+            continue
         t = r['c'].split()
         suffix = False
         for x in r['case'].split()[2:]:
